@@ -123,7 +123,7 @@ def base_axioms():
     A(("snoc_last", _q([p, x], sget(snoc(p, x), slen(p)) == x, [snoc(p, x)])))
     A(("snoc_get", _q([p, x, i], z3.Implies(z3.And(0 <= i, i < slen(p)),
                                               sget(snoc(p, x), i) == sget(p, i)), [sget(snoc(p, x), i)])))
-    A(("snoc_init", _q([p, x], sinit(snoc(p, x)) == p, [snoc(p, x)])))
+    A(("snoc_init", _q([p, x], z3.Implies(seqtag(p), sinit(snoc(p, x)) == p), [snoc(p, x)])))
     A(("snoc_lastv", _q([p, x], slast(snoc(p, x)) == x, [snoc(p, x)])))
     A(("scat_len", _q([p, q], slen(scat(p, q)) == slen(p) + slen(q), [scat(p, q)])))
     A(("scat_obj", _q([p, q], z3.And(is_VObj(scat(p, q)), tag(scat(p, q)) == TAG["tuple"]), [scat(p, q)])))
